@@ -182,7 +182,7 @@ def c18_c(ctx: Ctx):
 def c18_d(ctx: Ctx):
     """diff_jobs is set algebra over flattened (key, value) pairs."""
     R = "C18-d"
-    f = ctx.fn("signac.diff:diff_jobs")
+    f = ctx.desugared(ctx.fn("signac.diff:diff_jobs"))
     out = []
     txt = " ".join(canon(n) for n in body_nodes(f) if isinstance(n, (ast.Assign, ast.Return)))
     flat = [c for c in body_nodes(f) if isinstance(c, ast.Call) and "signac._utility:_nested_dicts_to_dotted_keys" in common.targets_of(ctx, f, c)]
